@@ -1347,13 +1347,22 @@ static C04Res c16Once(const Instance& I, const ParamSet& cfg, int loadMode, int 
       if(base.st != SPX::OPTIMAL) return R;
       static const double fr[3] = {1e-3, 1.0, 10.0};
       double delta = fr[k % 3] * (std::fabs(base.v) + 1.0);
-      bool beyond = k >= 3;     // true: the optimum lies beyond the limit (ABORT_VALUE allowed)
-      // minimisation: OBJLIMIT_UPPER; optimum beyond the limit means v > limit.  maximisation: OBJLIMIT_LOWER, v < limit.
-      double limit = M.sense < 0 ? (beyond ? base.v - delta : base.v + delta) : (beyond ? base.v + delta : base.v - delta);
-      sp.setRealParam(M.sense < 0 ? SoPlex::OBJLIMIT_UPPER : SoPlex::OBJLIMIT_LOWER, limit, true);
+      bool beyond = (k % 6) >= 3;     // true: the optimum lies beyond the limit in the direction of optimisation (ABORT_VALUE allowed)
+      // variants 0..5: the limit that bounds the direction of optimisation from the far side: minimisation OBJLIMIT_UPPER (beyond means
+      // v > limit), maximisation OBJLIMIT_LOWER (v < limit).  variants 6..11: the other limit (minimisation OBJLIMIT_LOWER, maximisation
+      // OBJLIMIT_UPPER); "beyond in the direction of optimisation" is then v < limit for minimisation and v > limit for maximisation
+      bool other = k >= 6;
+      bool useUpper = (M.sense < 0) != other;
+      double limit = useUpper == beyond ? base.v - delta : base.v + delta;
+      const SoPlex::RealParam lp_ = useUpper ? SoPlex::OBJLIMIT_UPPER : SoPlex::OBJLIMIT_LOWER;
+      sp.setRealParam(lp_, limit, true);
       sp.optimize();
       int st = (int)sp.status();
-      if(count) S.count(std::string("c16.objlimit.") + (beyond ? "beyond." : "harmless.") + statusName(st));
+      if(count)
+      {
+         S.count(std::string("c16.objlimit.") + (other ? "otherlimit." : "") + (beyond ? "beyond." : "harmless.") + statusName(st));
+         S.count(std::string("c16.objlimit.sense.") + (M.sense < 0 ? "min" : "max") + (useUpper ? ".upper" : ".lower"));
+      }
       if(!beyond)
       {
          if(st == SPX::ABORT_VALUE)
@@ -1390,7 +1399,7 @@ static C04Res c16Once(const Instance& I, const ParamSet& cfg, int loadMode, int 
                return R;
             }
          }
-         sp.setRealParam(M.sense < 0 ? SoPlex::OBJLIMIT_UPPER : SoPlex::OBJLIMIT_LOWER, M.sense < 0 ? soplex::infinity : -soplex::infinity, true);
+         sp.setRealParam(lp_, useUpper ? soplex::infinity : -soplex::infinity, true);
          sp.optimize();
          if(count) S.count("c16.objlimit.resumed");
          if((int)sp.status() != SPX::OPTIMAL || std::fabs(sp.objValueReal() - base.v) / (1.0 + std::fabs(base.v)) > 1e-5)
@@ -1509,7 +1518,7 @@ static void caseC16(long long k, Rng& g)
       }
    }
    for(int t = 0; t < 4; t++) pts.push_back({2, t});
-   for(int t = 0; t < 6; t++) pts.push_back({3, t});
+   for(int t = 0; t < 12; t++) pts.push_back({3, t});
    bool reported = false;
    for(auto& pt : pts)
    {
